@@ -201,7 +201,7 @@ func (w *World) apply(pos int, o Op) error {
 	case VReinforce:
 		return e.VReinforce(o.I, append([]string(nil), o.IDs...))
 	case VEvolve:
-		nid, err := e.VEvolve(o.I, o.ID, cloneVec(o.V), cloneMeta(o.M), o.S2)
+		nid, err := e.VEvolve(o.I, o.ID, cloneVec(o.V), engineMeta(o.M), o.S2)
 		if err == nil {
 			w.Evolved[pos] = nid
 		}
